@@ -20,7 +20,7 @@ RULE = (
 REQUIRED = ["its_monitor_evals", "smarts_monitor_evals", "its_results_checked", "smarts_results_checked",
             "substrate_identity_checked", "change_graph_checked", "balance_checked", "runs/fwd", "runs/bwd",
             "runs/own-template", "runs/foreign-template", "runs/explicit", "runs/implicit", "strategy/all",
-            "strategy/comp", "strategy/bt", "results_with_ring_closing_on_existing_bond", "results_with_multi_h_transfer"]
+            "strategy/comp", "strategy/bt", "results_with_ring_closing_on_existing_bond", "results_with_multi_h_transfer", "graph_substrate_runs"]
 ASSUMPTIONS = [
     "preconditions decided from the inputs: template without wildcard atoms, partial=False, hydrogen mode consistent with the flags",
     "conservation (b) is claimed for balanced templates only (sum of hydrogen and charge changes over the template is zero)",
@@ -301,6 +301,26 @@ SYNTH_TEMPLATES = [
 ]
 
 
+def graph_substrate(smi, style, rng):
+    from synkit.IO.chem_converter import smiles_to_graph
+    g = smiles_to_graph(smi, drop_non_aam=False, use_index_as_atom_map=True)
+    if g is None:
+        return None
+    nodes = sorted(g.nodes)
+    n = len(nodes)
+    if style == "zero":
+        mp = {v: i for i, v in enumerate(nodes)}
+    elif style == "sparse":
+        mp = {v: 3 * i + 5 for i, v in enumerate(nodes)}
+    else:   # ids 1..n except one atom that carries an id just above n
+        mp = {v: i + 1 for i, v in enumerate(nodes)}
+        mp[rng.choice(nodes)] = n + rng.randint(1, 2)
+    h = nx.relabel_nodes(g, mp, copy=True)
+    for v in h.nodes:
+        h.nodes[v]["atom_map"] = v if v else 0
+    return h
+
+
 def one_run(ctx, sub, tpl, invert, strategy, flags, wit, tag):
     _current[0] = wit
     out = RC.run(sub, tpl, invert, strategy=strategy, flags=flags, want_its=True)
@@ -368,6 +388,13 @@ def run(ctx):
                 one_run(ctx, sub, tpl, d == "bwd", "all", fl, {"template": tpl, "substrate": sub, "dir": d}, "synthetic templates x small substrates")
                 if mode == "explicit":
                     one_run(ctx, sub, tpl, d == "bwd", "all", RC.flags_for(mode, True), {"template": tpl, "substrate": sub, "dir": d, "alt": True}, "synthetic templates x small substrates")
+                # the same substrate handed over as a graph whose node ids are not 1..n (0-based, sparse, one id just above n)
+                if (ti + si) % 2 == 0:
+                    gsub = graph_substrate(sub, ("zero", "sparse", "gap")[(ti + si) // 2 % 3], ctx.rng)
+                    if gsub is not None:
+                        ctx.count("graph_substrate_runs")
+                        one_run(ctx, gsub, tpl, d == "bwd", "all", fl, {"template": tpl, "substrate": sub, "dir": d, "substrate_ids": sorted(gsub.nodes)},
+                                "synthetic templates x graph substrates with unusual node ids")
     flush(ctx)
     if not ctx.quick and ctx.shard == 0:
         from vmon import suite
